@@ -94,7 +94,7 @@ def _restored_pair_annihilated(plan, viol):
     exc = str(w.get("exception", ""))
     return (
         ("LinAlgError" in exc or "infs or NaNs" in exc)
-        and str(w.get("tag", "")).startswith("restart")
+        and str(w.get("tag", "restart")).startswith("restart")
         and w.get("restored_pair_degenerate") is True
         and float(w.get("checkpoint_min_relative_step", 1.0)) <= 8 * 2.220446049250313e-16
     )
